@@ -299,11 +299,16 @@ zgstrs(trans_t trans, SuperMatrix *L, SuperMatrix *U,
             }
          } else { /* trans == CONJ */
             for (k = 0; k < nrhs; ++k) {
-                /* Multiply by conj(inv(U')). */
-                sp_ztrsv("U", "C", "N", L, U, &Bmat[k*ldb], info);
+                /* inv(A**H) b = conj( inv(A**T) conj(b) ): sp_ztrsv has no usable "C" mode */
+                for (i = 0; i < n; ++i) Bmat[i + k*ldb].i = -Bmat[i + k*ldb].i;
 
-                /* Multiply by conj(inv(L')). */
-                sp_ztrsv("L", "C", "U", L, U, &Bmat[k*ldb], info);
+                /* Multiply by inv(U'). */
+                sp_ztrsv("U", "T", "N", L, U, &Bmat[k*ldb], info);
+
+                /* Multiply by inv(L'). */
+                sp_ztrsv("L", "T", "U", L, U, &Bmat[k*ldb], info);
+
+                for (i = 0; i < n; ++i) Bmat[i + k*ldb].i = -Bmat[i + k*ldb].i;
             }
          }
 	/* Compute the final solution X <= Pr'*X (=inv(Pr)*X) */
